@@ -1191,11 +1191,22 @@ func extra2C18(c *Ctx) {
 		c.Check("C18-R6", f.Key()+" search key scaled to the cumulative total on every path", c.Pos(call), scaled, "`r *= <last running sum>` must dominate the search: an unscaled draw above a float32 total slightly below 1 makes the search return len(tokens) and tokens[idx] panics")
 		// comparator
 		okCmp := false
-		if lit, isLit := ast.Unparen(call.Args[2]).(*ast.FuncLit); isLit {
+		{
+			// the comparator: a literal, or a named function of the package
 			var lf *core.Func
-			for _, l := range f.Lits() {
-				if l.Lit == lit {
-					lf = l
+			if lit, isLit := ast.Unparen(call.Args[2]).(*ast.FuncLit); isLit {
+				for _, l := range f.Lits() {
+					if l.Lit == lit {
+						lf = l
+					}
+				}
+			} else if id, isID := ast.Unparen(call.Args[2]).(*ast.Ident); isID {
+				if fo, isF := info.Uses[id].(*types.Func); isF {
+					for _, hf := range c.P.FuncsOf("sample") {
+						if hf.Obj == fo {
+							lf = hf
+						}
+					}
 				}
 			}
 			if lf != nil {
@@ -1245,6 +1256,30 @@ func extra2C19(c *Ctx) {
 		return
 	}
 	info := f.Info()
+	// the loop sits in Execute or in a function of the package that Execute calls (the legacy path moved out)
+	hasRoleSwitch := func(fn *core.Func) bool {
+		found := false
+		ast.Inspect(fn.Body, func(n ast.Node) bool {
+			if sw, ok := n.(*ast.SwitchStmt); ok && sw.Tag != nil && selName(sw.Tag) == "Role" {
+				found = true
+			}
+			return !found
+		})
+		return found
+	}
+	if !hasRoleSwitch(f) {
+		for _, call := range core.Calls(f.Body, true) {
+			fo, _ := core.Callee(info, call).(*types.Func)
+			if fo == nil {
+				continue
+			}
+			for _, hf := range c.P.FuncsOf("template") {
+				if hf.Obj == fo && hasRoleSwitch(hf) {
+					f = hf
+				}
+			}
+		}
+	}
 	g := c.G(f)
 	// slot variables by role
 	slots := map[string]types.Object{}
@@ -1498,31 +1533,109 @@ func extra3C18(c *Ctx) {
 		if !ok || se.Low != nil || se.High == nil || !isIdentOf(info, se.X, paramAt(f, 0)) {
 			return false, "returns " + core.ExprString(r)
 		}
-		// the bound: the key of the range loop over the parameter the return sits in
-		var key types.Object
-		for _, rl := range rangeLoops(f) {
-			if rl.Over == paramAt(f, 0) && within(rl.Stmt, ex.Return) {
-				if id, isID := rl.Stmt.Key.(*ast.Ident); isID {
-					key = info.Defs[id]
+		// the bound: the index of the loop over the parameter the return sits in (idx, or idx+1 when the
+		// element that crossed is kept), or a local that holds such an index or the list's length
+		loopIndexAt := func(at ast.Node) types.Object {
+			var key types.Object
+			ast.Inspect(f.Body, func(n ast.Node) bool {
+				switch x := n.(type) {
+				case *ast.RangeStmt:
+					if within(x, at) && isIdentOf(info, x.X, paramAt(f, 0)) {
+						if id, isID := x.Key.(*ast.Ident); isID {
+							key = info.Defs[id]
+						}
+					}
+				case *ast.ForStmt:
+					// for i := 0; i < len(list); i++
+					if !within(x, at) || x.Init == nil || x.Cond == nil || x.Post == nil {
+						return true
+					}
+					init, isAs := x.Init.(*ast.AssignStmt)
+					post, isInc := x.Post.(*ast.IncDecStmt)
+					cond, isB := ast.Unparen(x.Cond).(*ast.BinaryExpr)
+					if !isAs || !isInc || !isB || post.Tok != token.INC || len(init.Lhs) != 1 || len(init.Rhs) != 1 || cond.Op != token.LSS {
+						return true
+					}
+					if v, isC := core.ConstInt(info, init.Rhs[0]); !isC || v != 0 {
+						return true
+					}
+					lid, isL := init.Lhs[0].(*ast.Ident)
+					if !isL || !isIdentOf(info, post.X, info.ObjectOf(lid)) || !isIdentOf(info, cond.X, info.ObjectOf(lid)) {
+						return true
+					}
+					if p, isLen := isLenOf(info, cond.Y); isLen && p.Root == paramAt(f, 0) && len(p.Fields) == 0 {
+						key = info.ObjectOf(lid)
+					}
 				}
+				return true
+			})
+			return key
+		}
+		// form of a bound expression evaluated at node `at`: "idx", "idx+1", "len", "" (unknown)
+		var formOf func(e ast.Expr, at ast.Node, depth int) string
+		formOf = func(e ast.Expr, at ast.Node, depth int) string {
+			e = ast.Unparen(e)
+			key := loopIndexAt(at)
+			if key != nil && isIdentOf(info, e, key) {
+				return "idx"
 			}
-		}
-		if key == nil {
-			return false, "prefix bound is not the index of a loop over the list"
-		}
-		if inclusive {
-			be, isB := ast.Unparen(se.High).(*ast.BinaryExpr)
-			if isB && be.Op == token.ADD {
+			if be, isB := e.(*ast.BinaryExpr); isB && be.Op == token.ADD && key != nil {
 				if v, isC := core.ConstInt(info, be.Y); isC && v == 1 && isIdentOf(info, be.X, key) {
-					return true, ""
+					return "idx+1"
 				}
 				if v, isC := core.ConstInt(info, be.X); isC && v == 1 && isIdentOf(info, be.Y, key) {
-					return true, ""
+					return "idx+1"
 				}
 			}
-			return false, "prefix " + core.ExprString(se) + " can be empty (must include the element that crossed the threshold)"
+			if p, isLen := isLenOf(info, e); isLen && p.Root == paramAt(f, 0) && len(p.Fields) == 0 {
+				return "len"
+			}
+			if id, isID := e.(*ast.Ident); isID && depth < 2 {
+				v, isV := info.ObjectOf(id).(*types.Var)
+				if !isV || v.IsField() || v == paramAt(f, 0) {
+					return ""
+				}
+				forms := map[string]bool{}
+				for _, as := range g.AssignsTo(v) {
+					a, isAs := as.Node.(*ast.AssignStmt)
+					if !isAs || len(a.Lhs) != len(a.Rhs) {
+						return ""
+					}
+					for i, l := range a.Lhs {
+						if lid, isL := ast.Unparen(l).(*ast.Ident); isL && info.ObjectOf(lid) == types.Object(v) {
+							fm := formOf(a.Rhs[i], a, depth+1)
+							if fm == "" || (a.Tok != token.ASSIGN && a.Tok != token.DEFINE) {
+								return ""
+							}
+							forms[fm] = true
+						}
+					}
+				}
+				delete(forms, "len") // the whole list
+				switch {
+				case len(forms) == 0:
+					return "len"
+				case len(forms) == 1:
+					for fm := range forms {
+						return fm
+					}
+				}
+			}
+			return ""
 		}
-		return isIdentOf(info, se.High, key), "prefix " + core.ExprString(se)
+		switch fm := formOf(se.High, ex.Return, 0); {
+		case fm == "len":
+			return true, ""
+		case fm == "":
+			return false, "prefix bound is not the index of a loop over the list"
+		case inclusive:
+			if fm == "idx+1" {
+				return true, ""
+			}
+			return false, "prefix " + core.ExprString(se) + " can be empty (must include the element that crossed the threshold)"
+		default:
+			return fm == "idx", "prefix " + core.ExprString(se)
+		}
 	}
 	if f := c.Fn("C18-R7", "sample", "topP"); f != nil {
 		g := c.G(f)
@@ -1540,7 +1653,7 @@ func extra3C18(c *Ctx) {
 			if !ok || len(as.Lhs) != 1 || len(as.Rhs) != 1 {
 				return true
 			}
-			for _, x := range expand(g, as.Rhs[0], 2) {
+			for _, x := range []ast.Node{as.Rhs[0]} { // the product itself; its operands may be locals (closureMentions)
 				be, isB := ast.Unparen(x.(ast.Expr)).(*ast.BinaryExpr)
 				if !isB || be.Op != token.MUL {
 					continue
@@ -1565,6 +1678,11 @@ func extra3C18(c *Ctx) {
 		c.Check("C18-R7", f.Key()+" threshold = first element × p", c.Pos(f.Decl), thr != nil, "minP's cut-off must be the first (largest) element's value times p: any other basis can exclude every element")
 		for i, ex := range g.Returns() {
 			ok, why := prefixOK(f, g, ex, false)
+			if !ok && thr != nil && minPIndexFuncForm(f, g, ex, fVal, thr) {
+				// the other spelling: list[:cut] with cut = slices.IndexFunc(list, value < threshold), found
+				c.Check("C18-R7", f.Key()+" return#"+itoa(i+1)+" keeps the largest element", c.Pos(ex.Return), true, "")
+				continue
+			}
 			if ok && !isIdentOf(info, ast.Unparen(g.ReturnedExpr(ex, 0)), paramAt(f, 0)) {
 				// the cut is on the strict "below the threshold" edge
 				strict := false
@@ -1650,34 +1768,7 @@ func extra3C18(c *Ctx) {
 							continue
 						}
 						nret++
-						r := ex.Return.Results[0]
-						if v, isV := core.ConstFloat(hf.Info(), r); isV {
-							if v > 1 {
-								all = false
-							}
-							continue
-						}
-						okRet := false
-						if isIdentOf(hf.Info(), r, hp) {
-							for _, at := range hg.AtomsAt(ex.Loc) {
-								be, isB := ast.Unparen(at.Expr).(*ast.BinaryExpr)
-								if !isB {
-									continue
-								}
-								_, y, op, okO := core.Orient(be, func(e ast.Expr) bool { return isIdentOf(hf.Info(), e, hp) })
-								v, isV := core.ConstFloat(hf.Info(), y)
-								if !okO || !isV {
-									continue
-								}
-								if !at.Val {
-									op = negateCmp(op)
-								}
-								if (op == token.LSS && v <= 1) || (op == token.LEQ && v <= 1) {
-									okRet = true
-								}
-							}
-						}
-						if !okRet {
+						if !atMostOneAt(hf, hg, hp, ex) {
 							all = false
 						}
 					}
@@ -1726,6 +1817,139 @@ func extra3C18(c *Ctx) {
 		}
 		c.Check("C18-R7", f.Key()+" whole list when k <= 0, else k elements", c.Pos(f.Decl), whole && sized, "topK must return its argument on every path where k <= 0 and otherwise a list whose length derives from k")
 	}
+}
+
+// minPIndexFuncForm: the return is list[:cut], cut being assigned once from slices.IndexFunc(list, pred) with
+// pred returning exactly `element.value < threshold` (strict), on the edge where cut was found (cut >= 0).
+func minPIndexFuncForm(f *core.Func, g *core.Graph, ex core.Exit, fVal *types.Var, thr types.Object) bool {
+	info := f.Info()
+	se, ok := ast.Unparen(g.ReturnedExpr(ex, 0)).(*ast.SliceExpr)
+	if !ok || se.Low != nil || se.High == nil || !isIdentOf(info, se.X, paramAt(f, 0)) {
+		return false
+	}
+	cid, isID := ast.Unparen(se.High).(*ast.Ident)
+	if !isID {
+		return false
+	}
+	cut := info.ObjectOf(cid)
+	as := g.AssignsTo(cut)
+	if len(as) != 1 {
+		return false
+	}
+	a, isAs := as[0].Node.(*ast.AssignStmt)
+	if !isAs || len(a.Rhs) != 1 || len(a.Lhs) != 1 {
+		return false
+	}
+	call, isC := ast.Unparen(a.Rhs[0]).(*ast.CallExpr)
+	if !isC || core.CalleeName(info, call) != "slices.IndexFunc" || len(call.Args) != 2 || !isIdentOf(info, call.Args[0], paramAt(f, 0)) {
+		return false
+	}
+	lit, isLit := ast.Unparen(call.Args[1]).(*ast.FuncLit)
+	if !isLit || len(lit.Body.List) != 1 || lit.Type.Params == nil || len(lit.Type.Params.List) != 1 || len(lit.Type.Params.List[0].Names) != 1 {
+		return false
+	}
+	ret, isRet := lit.Body.List[0].(*ast.ReturnStmt)
+	if !isRet || len(ret.Results) != 1 {
+		return false
+	}
+	be, isB := ast.Unparen(ret.Results[0]).(*ast.BinaryExpr)
+	if !isB {
+		return false
+	}
+	x, y, op, okO := core.Orient(be, func(e ast.Expr) bool { return core.LastField(info, e) == fVal })
+	if !okO || op != token.LSS || !isIdentOf(info, y, thr) || !core.UsesObj(info, x, info.Defs[lit.Type.Params.List[0].Names[0]]) {
+		return false
+	}
+	// found: cut >= 0 on every path to the return
+	for _, at := range g.AtomsAt(ex.Loc) {
+		cb, isCB := ast.Unparen(at.Expr).(*ast.BinaryExpr)
+		if !isCB {
+			continue
+		}
+		_, k, cop, okC := core.Orient(cb, func(e ast.Expr) bool { return isIdentOf(info, e, cut) })
+		v, isK := core.ConstInt(info, k)
+		if !okC || !isK {
+			continue
+		}
+		if !at.Val {
+			cop = negateCmp(cop)
+		}
+		if (cop == token.GEQ && v == 0) || (cop == token.GTR && v == -1) || (cop == token.NEQ && v == -1) {
+			return true
+		}
+	}
+	return false
+}
+
+// atMostOneAt: the value returned at ex is a constant <= 1, or the parameter hp on paths each of which
+// last either assigned it a constant <= 1 (or min(…, c <= 1)) or passed a test that excludes values above 1.
+func atMostOneAt(hf *core.Func, hg *core.Graph, hp types.Object, ex core.Exit) bool {
+	info := hf.Info()
+	r := ex.Return.Results[0]
+	if v, isV := core.ConstFloat(info, r); isV {
+		return v <= 1
+	}
+	if !isIdentOf(info, r, hp) {
+		return false
+	}
+	paths, ok := hg.PathsTo(hg.Entry(), ex.Loc, 256)
+	if !ok || len(paths) == 0 {
+		return false
+	}
+	smallConst := func(e ast.Expr) bool {
+		if v, isV := core.ConstFloat(info, e); isV {
+			return v <= 1
+		}
+		if call, isC := ast.Unparen(e).(*ast.CallExpr); isC && core.CalleeName(info, call) == "builtin.min" {
+			for _, a := range call.Args {
+				if v, isV := core.ConstFloat(info, a); isV && v <= 1 {
+					return true
+				}
+			}
+		}
+		return false
+	}
+	for _, path := range paths {
+		known := false
+		for _, st := range path {
+			switch x := st.Node.(type) {
+			case *ast.AssignStmt:
+				for i, l := range x.Lhs {
+					if !isIdentOf(info, l, hp) {
+						continue
+					}
+					known = x.Tok == token.ASSIGN && len(x.Rhs) == len(x.Lhs) && smallConst(x.Rhs[i])
+				}
+			case *ast.IncDecStmt:
+				if isIdentOf(info, x.X, hp) {
+					known = false
+				}
+			case ast.Expr:
+				if st.Edge < 0 {
+					continue
+				}
+				be, isB := ast.Unparen(x).(*ast.BinaryExpr)
+				if !isB {
+					continue
+				}
+				_, y, op, okO := core.Orient(be, func(e ast.Expr) bool { return isIdentOf(info, e, hp) })
+				v, isV := core.ConstFloat(info, y)
+				if !okO || !isV {
+					continue
+				}
+				if st.Edge == 1 {
+					op = negateCmp(op)
+				}
+				if (op == token.LSS || op == token.LEQ) && v <= 1 {
+					known = true
+				}
+			}
+		}
+		if !known {
+			return false
+		}
+	}
+	return true
 }
 
 // ---------------------------------------------------------------------------- C17-R7
@@ -2269,27 +2493,16 @@ func extra3C11(c *Ctx) {
 	info := m.info
 	c.Rule("C11-R9", "the memory other models leave free is computed over all of them: updateFreeSpace collects every value of the loaded map under loadedMu and its loop over the collected runners adds each runner's predicted VRAM for every GPU with the runner's refMu taken unconditionally — no continue/break in that loop, no TryLock (a runner skipped because its lock happened to be held is treated as using no memory and the next model is started beside it)")
 	if f := m.lc.fn("Scheduler.updateFreeSpace"); f != nil {
-		var list types.Object
-		okCollect := false
+		list, okCollect := m.snapshotLocal(f)
 		for _, rl := range rangeLoops(f) {
-			if core.FieldVar(info, rl.Stmt.X) != m.fLoaded {
-				continue
-			}
-			if len(rl.Stmt.Body.List) == 1 {
-				if as, ok := rl.Stmt.Body.List[0].(*ast.AssignStmt); ok && len(core.CallsTo(info, as, false, "builtin.append")) == 1 {
-					if vid, isV := rl.Stmt.Value.(*ast.Ident); isV && core.UsesObj(info, as.Rhs[0], info.Defs[vid]) {
-						if id, isID := as.Lhs[0].(*ast.Ident); isID {
-							list = info.ObjectOf(id)
-							okCollect = m.lc.heldAt(as).HasClass(m.fLoadedMu)
-						}
-					}
-				}
+			if m.snapshotCall(rl.Stmt.X) {
+				okCollect = true
 			}
 		}
 		c.Check("C11-R9", f.Key()+" collects every loaded runner under loadedMu", c.Pos(f.Decl), okCollect, "")
 		n := 0
 		for _, rl := range rangeLoops(f) {
-			if list == nil || rl.Over != list {
+			if !m.snapshotCall(rl.Stmt.X) && (list == nil || rl.Over != list) {
 				continue
 			}
 			n++
